@@ -1,7 +1,191 @@
 /- Helper lemmas for C18. -/
 import SigV4.Spec.ValidateSpec
 import SigV4.Spec.UriSpec
+import SigV4.Lemmas.C01
+import SigV4.Lemmas.C14
+import SigV4.Lemmas.C17
+import SigV4.Lemmas.Query
 
 namespace SigV4
+
+/-! ### Lookups and permutations -/
+
+theorem assocGet_perm' {β : Type} {m m' : List (Bytes × β)} (k : Bytes) (h : m.Perm m')
+    (hn : (m.map (·.1)).Nodup) : assocGet m k = assocGet m' k := by
+  induction h with
+  | nil => rfl
+  | cons x _ ih =>
+    obtain ⟨k', v⟩ := x
+    simp only [List.map_cons, List.nodup_cons] at hn
+    simp only [assocGet]
+    rw [ih hn.2]
+  | swap x y l =>
+    obtain ⟨kx, vx⟩ := x
+    obtain ⟨ky, vy⟩ := y
+    simp only [List.map_cons, List.nodup_cons, List.mem_cons, not_or] at hn
+    have hne : ky ≠ kx := hn.1.1
+    simp only [assocGet]
+    by_cases h1 : ky = k
+    · by_cases h2 : kx = k
+      · exact absurd (h1.trans h2.symm) hne
+      · simp only [h1, h2, if_true, if_false]
+    · by_cases h2 : kx = k
+      · simp only [h1, h2, if_true, if_false]
+      · simp only [h1, h2, if_false]
+  | trans h1 _ ih1 ih2 =>
+    rw [ih1 hn, ih2 ((h1.map _).nodup_iff.1 hn)]
+
+theorem firstOf_perm {m m' : List (Bytes × List Bytes)} (k : Bytes) (h : m.Perm m')
+    (hn : (m.map (·.1)).Nodup) : firstOf m k = firstOf m' k := by
+  unfold firstOf
+  rw [assocGet_perm' k h hn]
+
+theorem headerLine_perm {m m' : HeaderMap} (h : m.Perm m') (hn : (m.map (·.1)).Nodup) :
+    headerLine m = headerLine m' := by
+  funext name
+  unfold headerLine
+  rw [assocGet_perm' name h hn]
+
+/-! ### Parameter extraction -/
+
+theorem authParamsFromHeader_congr (c c' : CanonReq) (ah : Bytes)
+    (hh : ∀ k, firstOf c.headers k = firstOf c'.headers k) :
+    authParamsFromHeader c ah = authParamsFromHeader c' ah := by
+  unfold authParamsFromHeader
+  simp only [hh]
+
+theorem authParamsFromQuery_congr (c c' : CanonReq) (alg : Bytes)
+    (hp : ∀ k, firstOf c.params k = firstOf c'.params k) :
+    authParamsFromQuery c alg = authParamsFromQuery c' alg := by
+  unfold authParamsFromQuery
+  simp only [hp]
+
+theorem extractAuthParams_congr (c c' : CanonReq)
+    (hh : ∀ k, assocGet c.headers k = assocGet c'.headers k)
+    (hp : ∀ k, assocGet c.params k = assocGet c'.params k) :
+    extractAuthParams c = extractAuthParams c' := by
+  have hfh : ∀ k, firstOf c.headers k = firstOf c'.headers k := fun k => by
+    unfold firstOf; rw [hh]
+  have hfp : ∀ k, firstOf c.params k = firstOf c'.params k := fun k => by
+    unfold firstOf; rw [hp]
+  unfold extractAuthParams
+  rw [hh, hp]
+  split
+  · exact authParamsFromHeader_congr c c' _ hfh
+  · exact authParamsFromQuery_congr c c' _ hfp
+  all_goals rfl
+
+/-! ### Unique keys -/
+
+theorem keys_assocExtend {β : Type} (m : List (Bytes × List β)) (k : Bytes) (vs : List β) :
+    (assocExtend m k vs).map (·.1) =
+      if k ∈ m.map (·.1) then m.map (·.1) else m.map (·.1) ++ [k] := by
+  induction m with
+  | nil => simp [assocExtend]
+  | cons kv rest ih =>
+    obtain ⟨k', vs'⟩ := kv
+    simp only [assocExtend]
+    by_cases hk : k' = k
+    · subst hk; simp
+    · rw [if_neg hk]
+      simp only [List.map_cons, ih, List.mem_cons]
+      have hk' : ¬ k = k' := fun h => hk h.symm
+      by_cases hm : k ∈ rest.map (·.1)
+      · simp [hm]
+      · simp [hm, hk']
+
+theorem nodup_keys_assocExtend {β : Type} (m : List (Bytes × List β)) (k : Bytes) (vs : List β)
+    (h : (m.map (·.1)).Nodup) : ((assocExtend m k vs).map (·.1)).Nodup := by
+  rw [keys_assocExtend]
+  split
+  · exact h
+  · rename_i hk
+    rw [List.nodup_append]
+    refine ⟨h, by simp, ?_⟩
+    intro a ha b hb
+    simp only [List.mem_singleton] at hb
+    subst hb
+    intro hab; subst hab; exact hk ha
+
+theorem nodup_keys_mergeParams (url body : QueryMap) (h : (url.map (·.1)).Nodup) :
+    ((mergeParams url body).map (·.1)).Nodup := by
+  unfold mergeParams
+  induction body generalizing url with
+  | nil => exact h
+  | cons kv rest ih =>
+    simp only [List.foldl_cons]
+    exact ih _ (nodup_keys_assocExtend url kv.1 kv.2 h)
+
+theorem nodup_keys_queryLoop (comps : List Bytes) (m m' : QueryMap) (h : (m.map (·.1)).Nodup)
+    (hq : queryLoop comps m = .ok m') : (m'.map (·.1)).Nodup := by
+  induction comps generalizing m with
+  | nil =>
+    unfold queryLoop at hq
+    cases hq
+    exact h
+  | cons comp rest ih =>
+    unfold queryLoop at hq
+    split at hq
+    · exact ih m h hq
+    · simp only at hq
+      split at hq
+      · cases hq
+      · cases hq
+      · split at hq
+        · cases hq
+        · cases hq
+        · exact ih _ (nodup_keys_assocPush m _ _ h) hq
+
+theorem nodup_keys_parseQuery (q : Bytes) (m : QueryMap) (h : parseQuery q = .ok m) :
+    (m.map (·.1)).Nodup := by
+  unfold parseQuery at h
+  split at h
+  · cases h; exact List.nodup_nil
+  · exact nodup_keys_queryLoop _ [] m List.nodup_nil h
+
+theorem nodup_keys_normalizeHeaders (hs : HeaderList) (m : HeaderMap) (h : (m.map (·.1)).Nodup) :
+    ((normalizeHeaders hs m).map (·.1)).Nodup := by
+  induction hs generalizing m with
+  | nil => exact h
+  | cons kv rest ih =>
+    obtain ⟨k, v⟩ := kv
+    unfold normalizeHeaders
+    exact ih _ (nodup_keys_assocPush m _ _ h)
+
+/-! ### State independence of one validation -/
+
+theorem getSigningKey_out_calls {σ : Type} (P : Provider σ) (s : σ) (a : Authenticator)
+    (region service : Bytes) :
+    (getSigningKey P s a region service).out =
+      (match (P.ready s).1 with
+       | some e => .err e.toKind
+       | none =>
+         match (P.call (P.ready s).2 (providerReqOf a region service)).1 with
+         | .error e => .err e.toKind
+         | .ok r => .ok r) ∧
+    (getSigningKey P s a region service).calls =
+      (match (P.ready s).1 with
+       | some _ => []
+       | none => [providerReqOf a region service]) := by
+  rcases getSigningKey_cases P s a region service with ⟨e, hr, hg⟩ | ⟨hr, e, hc, hg⟩ | ⟨hr, resp, hc, hg⟩
+  · rw [hg, hr]; exact ⟨rfl, rfl⟩
+  · rw [hg, hr, hc]; exact ⟨rfl, rfl⟩
+  · rw [hg, hr, hc]; exact ⟨rfl, rfl⟩
+
+theorem validate_out_calls_state_indep {σ : Type} (H : Bytes → Bytes) (cfg : Config) (P : Provider σ)
+    (st st' : σ) (req : Request)
+    (hpure : ∀ st st' pr, (P.ready st).1 = (P.ready st').1 ∧ (P.call st pr).1 = (P.call st' pr).1) :
+    (validate H cfg P st req).out = (validate H cfg P st' req).out ∧
+    (validate H cfg P st req).calls = (validate H cfg P st' req).calls := by
+  rcases validate_split H cfg req with ⟨o, _, h⟩ | ⟨a, fp, sts, _, _, _, _, h⟩
+  · rw [(h σ P st).1, (h σ P st').1]
+    exact ⟨rfl, rfl⟩
+  · rw [(h σ P st).1, (h σ P st').1]
+    simp only [finish]
+    obtain ⟨e1, e2⟩ := getSigningKey_out_calls P st a cfg.region cfg.service
+    obtain ⟨e1', e2'⟩ := getSigningKey_out_calls P st' a cfg.region cfg.service
+    rw [e1, e2, e1', e2', (hpure st st' (providerReqOf a cfg.region cfg.service)).1,
+      (hpure (P.ready st).2 (P.ready st').2 (providerReqOf a cfg.region cfg.service)).2]
+    exact ⟨rfl, rfl⟩
 
 end SigV4
